@@ -503,6 +503,23 @@ def gen_cpython_a85(out):
     out.append(f"def a85Padding (ncurr : Nat) : Nat := ({pads[0].left.value} - ncurr)\n")
 
 
+def gen_get_filters_keys(out, tmod):
+    """pdftypes.py, PDFStream.get_filters: the key tuples handed to get_any (first key present wins)."""
+    fn = P.find_function(tmod, "PDFStream.get_filters")
+    tuples = {}
+    for st in fn.body:
+        if isinstance(st, ast.Assign) and isinstance(st.targets[0], ast.Name) and st.targets[0].id in ("filters", "params"):
+            calls = [c for c in ast.walk(st.value) if isinstance(c, ast.Call) and isinstance(c.func, ast.Attribute)
+                     and c.func.attr == "get_any"]
+            if len(calls) == 1 and calls[0].args and isinstance(calls[0].args[0], ast.Tuple):
+                tuples.setdefault(st.targets[0].id, [P.literal(x) for x in calls[0].args[0].elts])
+    if sorted(tuples) != ["filters", "params"]:
+        raise P.Untranslatable("get_filters: get_any((..keys..)) for filters and params expected")
+    out.append("\n-- pdftypes.py: PDFStream.get_filters\n")
+    out.append("def FILTER_KEYS : List Bytes := [" + ", ".join(P.lean_bytes(k.encode("latin-1")) for k in tuples["filters"]) + "]\n")
+    out.append("def PARMS_KEYS : List Bytes := [" + ", ".join(P.lean_bytes(k.encode("latin-1")) for k in tuples["params"]) + "]\n")
+
+
 def generate(lean_dir: str):
     out = [P.HEADER.format(src="pdfminer/utils.py, pdfminer/pdftypes.py, pdfminer/lzw.py, pdfminer/runlength.py, pdfminer/pdfparser.py, pdfminer/ascii85.py", ns="Filters")]
     mod = P.parse_file("pdfminer/utils.py")
@@ -536,6 +553,7 @@ def generate(lean_dir: str):
     gen_pred(out, mod)
     gen_parser(out)
     gen_predictor_dispatch(out, tmod)
+    gen_get_filters_keys(out, tmod)
     gen_ascii85(out)
     gen_cpython_a85(out)
     out.append("\nend PdfVerif.Gen.Filters\n")
